@@ -404,6 +404,9 @@ type vfExchange struct {
 	// EagerReply: the peer's next frames are read (by what would be the read loop of the HTTP/2 stack) while the Write
 	// call that carried the frames they answer has not returned yet
 	EagerReply bool `json:"eagerReply"`
+	// CloseFails: closing the underlying connection returns an error (a TLS close_notify that cannot be sent, a
+	// connection the peer has reset): the tracer still learns that the connection is gone
+	CloseFails bool `json:"closeFails,omitempty"`
 	// TableSize: per direction, the HPACK dynamic-table size that direction's encoder switches to before its first
 	// header block (0: stays at the 4096 default). The other side announces it in a SETTINGS frame first, the encoder
 	// then signals the change in its next header block; sizes above and below the default, also ~0.
@@ -774,6 +777,9 @@ func vfRunExchange(ex vfExchange, cuts [2][]int) ([]Trace, error) {
 	frames, _ := vfBuildFrames(ex)
 	coll := &vfCollector{}
 	inner := &vfScriptConn{}
+	if ex.CloseFails {
+		inner.closeErr = errors.New("verif: close: connection reset by peer")
+	}
 	conn := TracingHTTP2Conn(inner, ex.Server, coll)
 	if vfConnFactory != nil {
 		conn, coll = vfConnFactory(inner, ex.Server)
@@ -880,7 +886,9 @@ func vfRunExchange(ex vfExchange, cuts [2][]int) ([]Trace, error) {
 			return nil, verifkit.Violf("conn-not-transparent", "Read at the peer's close returned (%d, %v), want (0, EOF)", n, err)
 		}
 	}
-	_ = conn.Close()
+	if cerr := conn.Close(); (cerr != nil) != ex.CloseFails {
+		return nil, verifkit.Violf("conn-not-transparent", "Close returned %v, the underlying connection's Close fails: %v", cerr, ex.CloseFails)
+	}
 	var all []byte
 	for _, w := range inner.written {
 		all = append(all, w...)
@@ -1322,6 +1330,7 @@ func vfGenExchange(t *rapid.T) vfExchange {
 		}
 	}
 	ex.EagerReply = rapid.IntRange(0, 3).Draw(t, "eagerReply") == 0
+	ex.CloseFails = rapid.IntRange(0, 4).Draw(t, "closeFails") == 0
 	for d := 0; d < 2; d++ {
 		if rapid.IntRange(0, 3).Draw(t, "otherTableSize") == 0 {
 			ex.TableSize[d] = rapid.SampledFrom([]int{1, 100, 200, 4097, 65536, 1 << 20}).Draw(t, "tableSize")
